@@ -70,14 +70,28 @@ class Circuit:
     def append(self, instruction, targets=None, arg=None):
         if isinstance(instruction, str):
             instruction = CircuitInstruction(instruction, targets or [], arg if isinstance(arg, (list, tuple)) else ([] if arg is None else [arg]))
+        # like stim: an argument-less instruction appended right after one of the same gate is fused into it (targets concatenated)
+        last = self.items[-1] if self.items else None
+        if isinstance(last, CircuitInstruction) and isinstance(instruction, CircuitInstruction) and last.name == instruction.name \
+                and instruction.name not in NO_FUSE and not last._args and not instruction._args:
+            # (instructions that carry arguments are left unfused: both sides are compared in a normal form that splits targets anyway,
+            #  and fusing them would only add solver forks on argument equality)
+            self.items[-1] = CircuitInstruction(last.name, last._targets + instruction._targets, last._args)
+            return
         self.items.append(instruction)
 
     def __iadd__(self, other: 'Circuit'):
-        self.items.extend(other.items)
+        for it in other.items:
+            if isinstance(it, RepeatBlock):
+                self.items.append(it)
+            else:
+                self.append(it)
         return self
 
     def __add__(self, other: 'Circuit'):
-        return Circuit(self.items + other.items)
+        out = Circuit(self.items)
+        out += other
+        return out
 
     def __mul__(self, n):
         n = int(n)
